@@ -5,7 +5,7 @@
 //   - the Wuffs std/lzma and std/xz decoders, generated from the working tree and compiled with gcc,
 //     must accept the encoding, consume all of it and return x (whole-buffer and small-chunk I/O);
 //   - robustness: Decode on arbitrary / mutated bytes must not panic, must finish, and
-//     len(out) <= 64*len(in)+64.
+//     len(out) <= 42*len(in) (the constant proved in Props/C17.lean: decode_total_bounded).
 package main
 
 import (
@@ -392,8 +392,10 @@ func (w *worker) evalDecode(k *kase, res *result) {
 		res.fail("robust:"+fn+":panic", "Decode panicked on arbitrary input", clip(op))
 	case d.tmo:
 		res.fail("robust:"+fn+":timeout", "Decode did not finish within 120 s", clip(op))
-	case len(d.out) > 64*len(k.enc)+64:
-		res.fail("robust:"+fn+":output-bound", fmt.Sprintf("len(out)=%d > 64*len(in)+64 with len(in)=%d", len(d.out), len(k.enc)), clip(op))
+	case len(d.out) > 42*len(k.enc):
+		// 42 is the constant the code guarantees (theorem decode_total_bounded: at most 377 decoded bits,
+		// i.e. fewer than 42 nine-bit literals, per source byte); DESIGN.md's 64*len+64 is weaker.
+		res.fail("robust:"+fn+":output-bound", fmt.Sprintf("len(out)=%d > 42*len(in) with len(in)=%d", len(d.out), len(k.enc)), clip(op))
 	}
 	if len(k.enc) > 0 {
 		if rat := float64(len(d.out)) / float64(len(k.enc)); rat > res.maxRat {
